@@ -141,7 +141,9 @@ func (c *Ctx) classifyLoop(fn *ssa.Function, l *natLoop) string {
 			case *ssa.Send:
 				return "service loop: blocks on a channel send"
 			case *ssa.Next:
-				if l.header == b || b.Dominates(l.latches[0]) {
+				// the iterator is advanced in the header of *this* loop (an inner range loop does
+				// not bound the loop around it)
+				if l.header == b {
 					return "range over a map/string (finite iteration)"
 				}
 			case *ssa.Call:
@@ -262,6 +264,79 @@ func (c *Ctx) classifyLoop(fn *ssa.Function, l *natLoop) string {
 			}
 			if why := try(bo.Y, bo.X, true); why != "" {
 				return why
+			}
+		}
+		switch op {
+		case token.LSS, token.LEQ:
+			// for len(acc) < bound { ...; acc = append(acc, s...) } with len(s) >= 1 on every way round
+			if call, ok := stripConv(bo.X).(*ssa.Call); ok && calleeName(&call.Call) == "builtin:len" && l.invariant(bo.Y, 0) {
+				if phi, ok := call.Call.Args[0].(*ssa.Phi); ok && phi.Block() == l.header {
+					grows := true
+					for i, p := range l.header.Preds {
+						if !l.blocks[p] {
+							continue
+						}
+						facts := append([]cons{}, a.blockFacts(p)...)
+						facts = append(facts, a.inv...)
+						goal := a.lenOf(phi.Edges[i], 0).add(a.lenOf(phi, 0), -1).add(konst(1), -1)
+						if !a.prove(facts, goal, 0) {
+							grows = false
+						}
+					}
+					if grows {
+						return "accumulated output strictly grows towards a loop-invariant bound"
+					}
+				}
+			}
+			// the same with a running copy of the length: for n := 0; n < bound; n = len(acc) { ...;
+			// acc = append(acc, s...) } where acc starts empty
+			if np, ok := stripConv(bo.X).(*ssa.Phi); ok && np.Block() == l.header && l.invariant(bo.Y, 0) {
+				var acc *ssa.Phi
+				good := true
+				for i, p := range l.header.Preds {
+					e := stripConv(np.Edges[i])
+					if !l.blocks[p] {
+						if k, isK := constInt(e); !isK || k != 0 {
+							good = false
+						}
+						continue
+					}
+					call, isCall := e.(*ssa.Call)
+					if !isCall || calleeName(&call.Call) != "builtin:len" {
+						good = false
+						continue
+					}
+					// the measured slice is what the accumulator phi receives on this edge
+					found := false
+					for _, in := range l.header.Instrs {
+						ap, isPhi := in.(*ssa.Phi)
+						if !isPhi {
+							break
+						}
+						if ap.Edges[i] == call.Call.Args[0] && (acc == nil || acc == ap) {
+							acc, found = ap, true
+						}
+					}
+					if !found {
+						good = false
+					}
+				}
+				if good && acc != nil && startsEmpty(acc) {
+					for i, p := range l.header.Preds {
+						if !l.blocks[p] {
+							continue
+						}
+						facts := append([]cons{}, a.blockFacts(p)...)
+						facts = append(facts, a.inv...)
+						goal := a.lenOf(acc.Edges[i], 0).add(a.lenOf(acc, 0), -1).add(konst(1), -1)
+						if !a.prove(facts, goal, 0) {
+							good = false
+						}
+					}
+					if good {
+						return "accumulated output strictly grows towards a loop-invariant bound (running copy of its length)"
+					}
+				}
 			}
 		}
 		switch op {
